@@ -168,7 +168,7 @@ class FramesFam:
 
 class ReentryFam:
     PROPS = ["C18"]
-    ASSUMPTIONS = ["inputs: every string up to length 3 (thorough 4) over the 17-character alphabet {1 2 0 , . - + e % $ EUR / space : ' = T} and a vocabulary of 145 entries (booleans and errors in the five languages, dates, times, percentages, currencies, grouped, scientific, very small and very large numbers, look-alike strings with and without the quote prefix, 25 formulas incl. malformed ones, Unicode / control-character text, a URL)",
+    ASSUMPTIONS = ["inputs: every string up to length 3 (thorough 4) over the 17-character alphabet {1 2 0 , . - + e % $ EUR / space : ' = T} and a vocabulary of 178 entries (booleans and errors in the five languages, dates, times, percentages, currencies, grouped, scientific, very small and very large numbers, look-alike strings with and without the quote prefix, 58 formulas incl. malformed ones and every operator nesting that needs parentheses, Unicode / control-character text, a URL)",
                    "each input is typed with Model::set_user_input into a fresh default-styled cell of a workbook in each language / locale pair (quick: 8 pairs; thorough: 12 pairs - every language, every locale, crossings), evaluated, observed; then get_localized_cell_content is typed back into the same cell, evaluated and observed again",
                    "observed components: content text, value type, style (every attribute), value with numbers to 15 significant digits; TLC compares them as interned ids",
                    "an input the engine refuses carries no verdict; shown content the engine refuses is a violation"]
